@@ -162,7 +162,7 @@ def run(chk):
     r6 = chk.rule("C01.R6", "whatever way the reply is cut into pieces, the same bytes are consumed: the carry-over rules of the readers (C03.R1 no received byte dropped, C03.R4 the end-token search sees all unconsumed bytes)")
     from . import rules_C03, report
 
-    report.include_rules(chk, r6, rules_C03, ("C03.R1", "C03.R4"), "a reply that arrives in several pieces is consumed like one that arrives whole")
+    report.include_rules(chk, r6, rules_C03, ("C03.R1", "C03.R4", "C03.R6"), "a reply that arrives in several pieces is consumed like one that arrives whole")
     from . import rules_C04
 
     report.include_rules(chk, r6, rules_C04, ("C04.R1",), "a store command announces the length of exactly the block it sends: otherwise the server parses the surplus as commands and answers them, and those replies are read by later calls")
